@@ -15,7 +15,7 @@ def cfg_text(table, max_attempts, max_len, shallow=None, deep=(), general=None, 
     shallow = max_len if shallow is None else shallow
     general = CONFIGS + ALLPATHS if general is None else general
     lines = ["SPECIFICATION %s" % ("GSpec" if gen else "Spec"), "CONSTANTS",
-             "  ConfigTable <- %s" % table, "  ReqAt <- %s" % reqat,
+             "  Configs <- %s" % table, "  ReqAt <- %s" % reqat,
              "  General = {%s}" % ", ".join('"%s"' % d for d in general), "  MaxAttempts = %d" % max_attempts,
              "  MaxLen = %d" % max_len, "  ShallowLen = %d" % shallow,
              "  DeepConfigs = {%s}" % ", ".join('"%s"' % d for d in deep)]
